@@ -20,8 +20,19 @@ fn keys_and_digests(parent: &Element, fam: &str) -> (Vec<String>, Vec<String>, V
             digs.push(format!("{}:{}", e.element_name().to_str(), texts.join(",")));
             continue;
         }
+        if fam == "ordered" {
+            // an argument: name + the texts of its SDGs
+            let mut texts: Vec<String> = e.elements_dfs().filter(|(_, x)| x.element_name() == ElementName::Sd).map(|(_, sd)| sd.character_data().map(|c| c.to_string()).unwrap_or_default()).collect();
+            let name = e.item_name().unwrap_or_default();
+            keys.push(format!("{name}:{}", texts.join(",")));
+            texts.sort();
+            ckeys.push(format!("{name}:{}", texts.join(",")));
+            digs.push(format!("{name}:{}", texts.join(",")));
+            continue;
+        }
         let k = match fam {
             "pkg" => e.item_name().unwrap_or_default(),
+            "idxnamed" => format!("{}/{}", e.item_name().unwrap_or_default(), e.get_sub_element(ElementName::Index).and_then(|x| x.character_data()).map(|c| c.to_string()).unwrap_or_default()),
             "mixed" => format!("{}:{}", e.element_name().to_str(), e.item_name().unwrap_or_default()),
             _ => {
                 let get = |n: ElementName| e.get_sub_element(n).and_then(|x| x.character_data()).map(|c| c.to_string()).unwrap_or_default();
@@ -75,6 +86,40 @@ pub fn run(input: &str, output: &str, trace: &str) -> Value {
                 }
                 sdgs
             }
+            "idxnamed" => {
+                let pkg = pkgs.create_named_sub_element(ElementName::ArPackage, "cfg").unwrap();
+                let els = pkg.create_sub_element(ElementName::Elements).unwrap();
+                let m = els.create_named_sub_element(ElementName::EcucModuleConfigurationValues, "m").unwrap();
+                let cs = m.create_sub_element(ElementName::Containers).unwrap();
+                let cv = cs.create_named_sub_element(ElementName::EcucContainerValue, "c").unwrap();
+                let sc = cv.create_sub_element(ElementName::SubContainers).unwrap();
+                for p in &perm {
+                    let e = sc.create_named_sub_element(ElementName::EcucContainerValue, p["n"].as_str().unwrap()).unwrap();
+                    if let Some(i) = p["idx"].as_str().filter(|s| !s.is_empty()) {
+                        let _ = e.create_sub_element(ElementName::Index).and_then(|x| x.set_character_data(i.to_string()));
+                    }
+                }
+                sc
+            }
+            "ordered" => {
+                let pkg = pkgs.create_named_sub_element(ElementName::ArPackage, "p").unwrap();
+                let els = pkg.create_sub_element(ElementName::Elements).unwrap();
+                let csi = els.create_named_sub_element(ElementName::ClientServerInterface, "csi").unwrap();
+                let op = csi.create_sub_element(ElementName::Operations).and_then(|o| o.create_named_sub_element(ElementName::ClientServerOperation, "op")).unwrap();
+                let args = op.create_sub_element(ElementName::Arguments).unwrap();
+                for (p, name) in perm.iter().zip(["z", "y", "x"]) {
+                    let a = args.create_named_sub_element(ElementName::ArgumentDataPrototype, name).unwrap();
+                    let sdgs = a.create_sub_element(ElementName::AdminData).and_then(|x| x.create_sub_element(ElementName::Sdgs)).unwrap();
+                    for t in p.as_array().cloned().unwrap_or_default() {
+                        let sdg = sdgs.create_sub_element(ElementName::Sdg).unwrap();
+                        let _ = sdg.set_attribute_string(AttributeName::Gid, "g");
+                        let sd = sdg.create_sub_element(ElementName::Sd).unwrap();
+                        let _ = sd.set_attribute_string(AttributeName::Gid, "v");
+                        let _ = sd.set_character_data(t.as_str().unwrap_or("").to_string());
+                    }
+                }
+                args
+            }
             "mixed" => {
                 let pkg = pkgs.create_named_sub_element(ElementName::ArPackage, "p").unwrap();
                 let els = pkg.create_sub_element(ElementName::Elements).unwrap();
@@ -104,6 +149,10 @@ pub fn run(input: &str, output: &str, trace: &str) -> Value {
                 pv
             }
         };
+        let fixed = |p: &Element| -> Vec<String> {
+            if fam == "ordered" { p.sub_elements().map(|e| e.item_name().unwrap_or_default()).collect() } else { vec![] }
+        };
+        let fixedbefore = fixed(&parent);
         let (before, cbefore, subbefore) = keys_and_digests(&parent, &fam);
         // E1-style trace around the sort, so that TLC also judges tree / index / reference predicates on it
         let reset = json!({"ev": {"op": "reset"}, "res": {"t": "ok", "v": 0}, "obs": w.observe(true), "h": [], "fix": []});
@@ -116,7 +165,7 @@ pub fn run(input: &str, output: &str, trace: &str) -> Value {
         let res2 = w.exec(&a);
         let (after2, _, _) = keys_and_digests(&parent, &fam);
         let rc = if res["t"] == "ok" && res2["t"] == "ok" { "ok".to_string() } else { format!("{}/{}", res["t"], res2["t"]) };
-        writeln!(out, "{}", json!({"fam": fam, "group": c["group"], "before": before, "after": after, "after2": after2, "cbefore": cbefore, "cafter": cafter, "res": rc,
+        writeln!(out, "{}", json!({"fam": fam, "group": c["group"], "before": before, "after": after, "after2": after2, "cbefore": cbefore, "cafter": cafter, "fixedbefore": fixedbefore, "fixedafter": fixed(&parent), "res": rc,
             "subbefore": subbefore, "subafter": subafter})).unwrap();
         n += 1;
     }
